@@ -514,6 +514,8 @@ def uni_behaviour(m, x, u, seed, nsamp=12):
         xi = np.round(np.clip(x64, -1e15, 1e15)).astype(np.int64)
     queries = {'float64-near': x64, 'float32': x32, 'int': xi, 'list': [float(v) for v in x64[:4]], 'scalar': float(x64[-1]),
                'scalar32': np.float32(x64[-1])}
+    if cval is None:          # the full variety only for constant models (whose methods compare with the constant);
+        queries = {k: queries[k] for k in ('float32', 'list')}      # fitted distributions: two alternative types
     for tag, q in queries.items():
         out[f'pdf:{tag}'] = outcome(lambda q=q: m.probability_density(q))
         out[f'cdf:{tag}'] = outcome(lambda q=q: m.cumulative_distribution(q))
